@@ -1,5 +1,8 @@
 """C01 - one verdict per announced client, then silence (DESIGN.md C01)."""
 import itertools
+import os
+import random
+import re
 
 import monitor
 import proto
@@ -42,6 +45,61 @@ def _perm_worker(a):
                 tr.result and tr.result["exit"] not in (0, 97)):
             out.append(("crash", "crash", "crash", "daemon failed on permutation %s: %s" % (perm, tr.result), None))
     return out, stats, [(list(p), True) for p in perms]
+
+
+def write_order_worker(a):
+    """When does a verdict reach the server?  A client that waits on an unanswered query is accepted by its real request timer (1 s)
+    while the server says nothing; then the server withdraws it (`D`).  The daemon runs under strace: if the verdict's write(2)
+    comes AFTER the read(2) that delivered the withdrawal, the server was given a verdict for a client it had already withdrawn.
+    The order of two system calls of one single-threaded process decides - no clock: a timer that is late fires after the
+    withdrawal, finds nothing, and no verdict is written at all (not judged)."""
+    import time
+    import daemon
+    import build as buildmod
+    b, seed = a["build"], a["seed"]
+    rng = random.Random(seed)
+    cid = rng.choice([5, 9, 70000])
+    how = a["how"]
+    cfg = proto.Config([("login.svc", "login")], timeout=1)
+    res = {"viol": [], "stats": {"write_order_runs": 1, "write_order_verdicts_by_timer": 0, "write_order_judged": 0}, "inconc": [], "hash": vcommon.h(["write-order", seed, how]), "nontrivial": False}
+    d = daemon.Daemon(b, cfg.text(b["moddir"]), leaks=False, keep=True, wrapper=("strace", "-f", "-qq", "-s", "300", "-e", "trace=read,readv,write,writev", "-o", "strace.out"))
+    try:
+        d.start()
+        for ln in ["%d C 192.0.2.7 1000 10.0.0.1 6667" % cid, "%d P :+x alice pw" % cid, "%d N h.example" % cid, "%d u id" % cid, "%d n nick" % cid, "%d U u x y :R" % cid]:
+            d.step(ln)
+        time.sleep(a.get("wait", 1.9))      # the server says nothing; the timer (1 s) has long expired on an idle machine
+        last = {"disconnect": "%d D" % cid, "registered": "%d T" % cid, "reannounce": "%d C 192.0.2.8 1001 10.0.0.1 6667" % cid}[how]
+        d.step(last)
+        d.step("-1 ? stats")
+        r = d.finish()
+        with open(os.path.join(d.dir, "strace.out"), "r", encoding="latin-1") as f:
+            calls = f.read().split("\n")
+    except (daemon.Died, daemon.Hang, OSError) as ex:
+        d.kill()
+        import shutil
+        shutil.rmtree(d.dir, ignore_errors=True)
+        res["inconc"].append("write-order run failed: %r" % (ex,))
+        return res
+    import shutil
+    shutil.rmtree(d.dir, ignore_errors=True)
+    if not r.clean():
+        res["inconc"].append("daemon unclean in a write-order run under strace (%s)" % (r.describe(),))
+        return res
+    iw = next((i for i, c in enumerate(calls) if re.search(r"\bwritev?\(1, .*\"[DR] %d 192\.0\.2\.7 " % cid, c)), None)
+    ir = next((i for i, c in enumerate(calls) if re.search(r"\breadv?\(0, .*(\"|\\n)%s\\n" % re.escape(last), c)), None)
+    if ir is None:
+        res["inconc"].append("write-order run: the read of %r is not in the system-call log" % last)
+        return res
+    if iw is None:
+        return res          # the timer had not fired when the withdrawal came (loaded machine): nothing to judge
+    res["stats"]["write_order_verdicts_by_timer"] = 1
+    res["stats"]["write_order_judged"] = 1
+    res["nontrivial"] = True
+    if iw > ir:
+        res["viol"].append(("C01", "verdict-after-withdrawal", "verdict-after-withdrawal:written-late:" + how,
+                            "client %d was accepted by its request timer while the server was silent, but the verdict was only WRITTEN after the daemon had read the server's %r: "
+                            "system calls in order:\n  %s" % (cid, last, "\n  ".join(c[:200] for c in calls[max(0, ir - 3):iw + 2])), {"write_order": True, "seed": seed, "how": how}))
+    return res
 
 
 def run(chk, tier, scale=1.0):
@@ -87,6 +145,16 @@ def run(chk, tier, scale=1.0):
         for (p, rule, sig, text, wit) in r["viol"]:
             if p == "C01":
                 chk.violation(Violation(p, rule, sig, text, wit))
+    # when a verdict produced by the request timer is written, relative to the read of the server's withdrawal (system-call order under strace)
+    wjobs = [dict(build=bplain, seed=chk.seed * 70 + k, how=["disconnect", "registered", "reannounce"][k % 3], wait=[1.9, 2.6][k % 2]) for k in range(6 if tier == "quick" else 36)]
+    for r in vcommon.pmap(write_order_worker, wjobs):
+        chk.add_case(r["hash"], r["nontrivial"])
+        chk.merge_counts(r["stats"])
+        for w in r["inconc"]:
+            chk.inconc(w)
+        for (p, rule, sig, text, wit) in r["viol"]:
+            chk.violation(Violation(p, rule, sig, text, wit))
+    chk.require("write_order_judged", 2)
     # exhaustive orders of a 7-event script: two instances of one id, queries, replies, disconnect
     perms = list(itertools.permutations(range(len(SCRIPT))))
     if tier == "quick":
@@ -121,6 +189,13 @@ def run(chk, tier, scale=1.0):
 
 
 def replay(chk, rep):
+    if rep["witness"].get("write_order"):
+        import build as buildmod
+        w = rep["witness"]
+        r = write_order_worker(dict(build=buildmod.build_daemon(buildmod.fresh_dir("c01p-replay"), "plain"), seed=w["seed"], how=w["how"]))
+        for v in r["viol"]:
+            print(v[3])
+        return 1 if r["viol"] else 0
     if rep["witness"].get("site"):
         import sitemodel
         return sitemodel.replay_site(chk, rep["witness"], "C01", ('C01',))
